@@ -686,8 +686,13 @@ class CallMixin:
             s.spec_env = st.locals  # quantified variables and params remain visible
             s.ghost = o.ghost
             s.old = None
+            s.now_state = st
             v = self.ev1(node.args[0], s)
             return v
+        if fn == "now":
+            # now(e) inside old(...): e is evaluated in the CURRENT state (e.g. old(xs[now(g_index)]))
+            cur = getattr(st, "now_state", None) or st
+            return self.ev1(node.args[0], cur)
         if fn == "implies":
             a = self.truthy(st, self.ev1(node.args[0], st))
             b = self.truthy(st, self.ev1(node.args[1], st))
